@@ -196,7 +196,7 @@ func (g *stringGen) String() string {
 }
 
 func (g *stringGen) value(t *T) string {
-	repeat := newRepeat(g.minRunes, g.maxRunes, -1, g.elem.String())
+	repeat := newRepeat(g.minRunes, g.maxRunes, -1, g.elem.label())
 
 	var b strings.Builder
 	b.Grow(repeat.avg())
